@@ -568,7 +568,7 @@ func (ex *Exec) step(fr *Frame, instr ssa.Instruction) *Panic {
 		case *mapIter:
 			if iter.i >= len(iter.ents) {
 				tt := in.Type().(*types.Tuple)
-				fr.env[in] = TupleV{ts.Fals, ex.zero(tt.At(1).Type(), nil), ex.zero(tt.At(2).Type(), nil)}
+				fr.env[in] = TupleV{ts.Fals, ex.zeroOrNil(tt.At(1).Type()), ex.zeroOrNil(tt.At(2).Type())}
 			} else {
 				e := iter.ents[iter.i]
 				iter.i++
@@ -598,6 +598,13 @@ func (ex *Exec) step(fr *Frame, instr ssa.Instruction) *Panic {
 		return nil
 	}
 	panic(ex.unsupported(fmt.Sprintf("instruction %T: %s", instr, instr)))
+}
+
+func (ex *Exec) zeroOrNil(t types.Type) Value {
+	if b, ok := t.(*types.Basic); ok && b.Kind() == types.Invalid {
+		return nil
+	}
+	return ex.zero(t, nil)
 }
 
 type mapIter struct {
